@@ -65,13 +65,47 @@ def reparsesSame (asts : List String) : Bool :=
   | [] => true
   | whole :: chunks => " ".intercalate ((chunks.map innerStmts).filter (· != "")) == innerStmts whole
 
+/-- name of the macro a top-level statement defines (`name = macro(…){…}`, the test of `isMacroDefinition`) -/
+def macroDefName : Node → Option String
+  | .inf "ASSIGN" (.ident name) (.macroLit ..) => some name
+  | _ => none
+
+def callsName (name : String) (n : Node) : Bool :=
+  (subnodes n).any fun m => match m with
+    | .call (.ident f) _ => f == name
+    | _ => false
+
+/-- `macro-redefined-after-use-in-one-input`: the script defines the same macro twice at top level and calls it in a
+statement between the two definitions.  `DefineMacros` records ALL definitions of an input before `ExpandMacros`
+expands any call, so evaluated in one go the call sites before the redefinition already use the LAST definition;
+fed statement by statement they use the first. -/
+def macroRedefinedAfterUse : List Node → Bool
+  | [] => false
+  | s :: rest =>
+    (match macroDefName s with
+     | none => false
+     | some name =>
+       -- statements up to the next definition of the same name, if there is one
+       let rec go (l : List Node) (used : Bool) : Bool :=
+         match l with
+         | [] => false
+         | t :: l' => if macroDefName t == some name then used else go l' (used || callsName name t)
+       go rest false)
+    || macroRedefinedAfterUse rest
+
+def wholeStatements (asts : List String) : List Node :=
+  match asts.head?.bind parseAst with
+  | some (.stmts l) => l
+  | _ => []
+
 /-- class of a failing case: the chunk texts are RE-PRINTED statements, so the print/parse findings recorded for
 C02/C03 apply.  `statement-starts-with-prefix-operator` is recognised on the text; any other way in which the
-re-printed chunks parse back to different statements (`a * (b * c)` printed `a * b * c`, …: the other normal-mode
-classes of lean/Grol/Classes.lean) is reported as `printer-changes-program`. -/
+re-printed chunks parse back to different statements is reported as `printer-changes-program`; a script that
+redefines a macro after using it is the recorded hoisting finding. -/
 def chunkClass (texts : List Bytes) (asts : List String) : String :=
   if texts.any lineStartsWithPrefixOp then "statement-starts-with-prefix-operator"
-  else if !reparsesSame asts then "printer-changes-program" else ""
+  else if !reparsesSame asts then "printer-changes-program"
+  else if macroRedefinedAfterUse (wholeStatements asts) then "macro-redefined-after-use-in-one-input" else ""
 
 def runCase (inp obs : String) : CaseResult :=
   if obs == "P" then { model := "P", agree := true, stmtModel := true, stmtImpl := true, nontrivial := false, tags := ["parse-error"] } else
